@@ -345,7 +345,7 @@ def check_numbers(rec, m, spec, t, d):
       m, base + 'assert D(d.to_numbers(flatten=False), spec=spec) == d'))
 
 
-def check_json(rec, m, spec, t, d):
+def check_json(rec, m, spec, t, d, strings=True):
   key = (src(m), t)
   base = f'd = {bind_src(t)}\n'
   forms = [
@@ -361,6 +361,8 @@ def check_json(rec, m, spec, t, d):
        'pg.from_json_str(d.to_json_str())'),
   ]
   for name, fn, text in forms:
+    if not strings and name.endswith(('-str', '-str-api')):
+      continue
     try:
       back = fn()
       ok = isinstance(back, pg.DNA) and same(shape(back), t)
@@ -601,39 +603,42 @@ def drv_numbers_and_json(tier, seed):
       scope=('15 named/literal/conditional/float/custom specs + 32 hand-picked '
              '+ 6 (thorough 60) seeded random conditional specs of weight<=4; '
              'specs (multi-element roots, inlined multi-choices, depth<=3, bare '
-             'decision-point roots); members: all up to a cap (quick 10, '
+             'decision-point roots); members: all up to a cap (quick 8, '
              'thorough 60) else first/last + seeded sample; views: flat, '
-             'nested, JSON compact/verbose as object and as string'))
+             'nested, JSON compact/verbose as object and as string (quick: the '
+             'string forms on the first 4 members of a spec)'))
   r = rng(seed, 'c12.numbers')
-  cap = 10 if tier == 'quick' else 60
+  cap = 8 if tier == 'quick' else 60
   t0 = time.process_time()
   budget = 38 if tier == 'quick' else 500
   for m in view_specs(tier, r):
     if time.process_time() - t0 > budget:
       break
     spec = build(m)
-    for t in sample_members(m, cap, r):
+    for j, t in enumerate(sample_members(m, cap, r)):
       d = mk(t).use_spec(spec)
       check_numbers(rec, m, spec, t, d)
-      check_json(rec, m, spec, t, d)
+      check_json(rec, m, spec, t, d, strings=(j < 4 or tier != 'quick'))
   return rec.result()
 
 
 def drv_dict_views(tier, seed):
   rec = Recorder(
       PROP, 'to_dict content, from_dict round trip and lookups',
-      scope=('same specs as drv_numbers_and_json; members: all up to a cap (quick 6, thorough 40) '
+      scope=('same specs as drv_numbers_and_json; members: all up to a cap (quick 5, thorough 40) '
              'else seeded sample; to_dict content under all 3 key types x 5 '
              'value types x 3 multi_choice_key x include_inactive (90 '
-             'combinations) for every sampled member; from_dict round trip: '
-             'all 90 combinations on the first member of each spec and a '
+             'combinations) for every sampled member (quick: from the third '
+             'member of a spec on, one include_inactive setting per '
+             'combination); from_dict round trip: all 90 combinations on the '
+             'first member of the first 6 (thorough 45) named specs and a '
              'rotating window of combinations on the others (every combination '
              'is hit many times); lookups d[dp], d[id], d[KeyPath], d.get, '
              'd[name], spec[id], spec[name] for every decision point incl. '
              'inactive ones and multi-choice parents'))
   r = rng(seed, 'c12.dict')
-  cap = 6 if tier == 'quick' else 40
-  window = 3 if tier == 'quick' else 16
+  cap = 5 if tier == 'quick' else 40
+  window = 2 if tier == 'quick' else 16
   t0 = time.process_time()
   budget = 40 if tier == 'quick' else 540
   rot = 0
@@ -646,7 +651,7 @@ def drv_dict_views(tier, seed):
       work.append((j, si, m, t))
   work.sort(key=lambda w: (w[0], w[1]))
   built = {}
-  full_budget = 9 if tier == 'quick' else 45
+  full_budget = 6 if tier == 'quick' else 45
   for j, si, m, t in work:
     if time.process_time() - t0 > budget:
       break
@@ -655,7 +660,10 @@ def drv_dict_views(tier, seed):
     spec = built[si]
     d = mk(t).use_spec(spec)
     rs, _ = records(m, spec, t, d)
-    check_dict_content(rec, m, spec, t, d, rs, COMBOS)
+    check_dict_content(
+        rec, m, spec, t, d, rs,
+        COMBOS if j < 2 or tier != 'quick' else
+        [c for i, c in enumerate(COMBOS) if i % 2 == (j + si) % 2])
     check_lookups(rec, m, spec, t, d, rs)
     if j == 0 and full_budget > 0 and (si < n_named):
       full_budget -= 1
@@ -772,8 +780,8 @@ def drv_alignment(tier, seed):
   r = rng(seed, 'c12.align')
   t0 = time.process_time()
   budget = 40 if tier == 'quick' else 540
-  n_start = 4 if tier == 'quick' else 10
-  chains = 4 if tier == 'quick' else 14
+  n_start = 3 if tier == 'quick' else 10
+  chains = 3 if tier == 'quick' else 14
   specs = alignment_specs()
 
   def audit(m, spec, x, source, make_x):
@@ -951,7 +959,7 @@ def drv_literal_forms(tier, seed):
              'brackets and slashes, whitespace / empty, number looking, '
              'unicode / control characters, fraction looking) x 2 specs '
              '(non-distinct named multi-choice; conditional + nested + sorted '
-             'multi-choice) x members (quick 4, thorough 16 per spec): '
+             'multi-choice) x members (quick 3, thorough 16 per spec): '
              'to_dict content and from_dict round trip under 3 key types x '
              "value types choice/literal/choice_and_literal x 3 "
              'multi_choice_key x include_inactive (quick: content under one '
@@ -959,7 +967,7 @@ def drv_literal_forms(tier, seed):
              'type x value type with one (multi key, inactive) pair per '
              'member); parameters() / from_parameters round trip'))
   r = rng(seed, 'c12.literals')
-  cap = 4 if tier == 'quick' else 16
+  cap = 3 if tier == 'quick' else 16
   t0 = time.process_time()
   budget = 35 if tier == 'quick' else 400
   for form, lits in LITERAL_FORMS:
@@ -1058,7 +1066,7 @@ def drv_operator_matrix(tier, seed):
              'choose 3 + float, 3 of conditional candidates, 4 choose 3 below '
              'a conditional choice; thorough: 5 more incl. 3 choose 2, 4 of 4, '
              '5 choose 3, bare root, nested multi-choice); starts: members '
-             'with most equal-valued siblings + seeded sample (quick 4, '
+             'with most equal-valued siblings + seeded sample (quick 3, '
              'thorough 12); operators: mutators.Uniform restricted (where=) '
              'to each active decision point in turn x seeds (quick 3, '
              'thorough 6), unrestricted Uniform and Swap x seeds, and the 9 '
@@ -1069,7 +1077,7 @@ def drv_operator_matrix(tier, seed):
   r = rng(seed, 'c12.matrix')
   t0 = time.process_time()
   budget = 35 if tier == 'quick' else 500
-  n_start = 4 if tier == 'quick' else 12
+  n_start = 3 if tier == 'quick' else 12
   n_seed = 3 if tier == 'quick' else 6
   n_partner = 1 if tier == 'quick' else 3
   for m in matrix_specs(tier):
@@ -1253,8 +1261,8 @@ def drv_binding_history(tier, seed):
              'of range / wrong type / None, float out of range, dropped, '
              'extra, swapped and duplicated children ...), the object is '
              'repaired (in place via rebind(value=/children=), by replacing '
-             'the node, or by re-ordering the already bound children) and '
-             'bound again; (b) a bound DNA is edited into another member and '
+             'the node (quick: for every other kind), or by re-ordering the '
+             'already bound children) and bound again; (b) a bound DNA is edited into another member and '
              'bound again to the same spec; (c) bound to / refused by another '
              'spec (wider spec, unrelated spec, equal spec object) first; (d) '
              'assembled from children that are already bound (to this spec, to '
@@ -1311,7 +1319,7 @@ def drv_binding_history(tier, seed):
     other = build(other_m)
     wide = build(widen(m))
     twin = build(m)
-    for t in sample_members(m, n_mem, r):
+    for ti, t in enumerate(sample_members(m, n_mem, r)):
       tsrc = dsrc(t)
       # which decision point does the node at a path answer (from the model)
       probe = mk(t)
@@ -1322,7 +1330,7 @@ def drv_binding_history(tier, seed):
       for kind, bad in corruptions(t):
         if not accepts(m, bad):
           by_kind.setdefault(kind, []).append(bad)
-      for kind in sorted(by_kind):
+      for ki, kind in enumerate(sorted(by_kind)):
         for bad in r.sample(by_kind[kind], min(per_kind, len(by_kind[kind]))):
           p = diff_path(bad, t)
           # Is the edited node, taken alone, a valid answer of its decision
@@ -1331,7 +1339,12 @@ def drv_binding_history(tier, seed):
           at = by_node.get(id(_node_at(probe, p)))
           alone_ok = at is not None and why_not_dp(
               _as_single(at), _get_tree(bad, p)) is None
-          for style in ('in-place', 'replace-node', 'reorder-bound-children'):
+          styles = ['in-place']
+          if p and (tier != 'quick' or (ki + ti) % 2 == 0):
+            styles.append('replace-node')
+          if kind in ('swap-children', 'duplicate-child'):
+            styles.append('reorder-bound-children')
+          for style in styles:
             x = mk(bad)
             if not same(shape(x), bad):
               break                      # normalised by the constructor
